@@ -846,6 +846,83 @@ Definition jspan_val (s : jspan) : json :=
               ("events", keep (JArr (map jevent_val (js_events s))));
               ("status", option_map jstatus_val (js_status s))]).
 
+(* TempoController.TagsV2 / ValuesV2: one json.Marshal of a map[string]any (encoding/json sorts the keys); the
+   collected slice is nil when the service returned nothing *)
+Definition opt_list {A : Type} (xs : list A) : option (list A) := match xs with [] => None | _ => Some xs end.
+Definition tagsv2_val (xs : list string) : json :=
+  JObj [("scopes", JArr [JObj [("name", JStr "unscoped"); ("tags", jslice JStr (opt_list xs))]])].
+Definition valuesv2_val (xs : list string) : json :=
+  JObj [("tagValues", jslice (fun v => JObj [("type", JStr "string"); ("value", JStr v)]) (opt_list xs))].
+
+(* unmarshal.SpanToJSONSpan (reader/utils/unmarshal/convert.go): the OTLP span as the service hands it over *)
+Inductive oval := OStr (s : string) | OBool (b : bool) | OInt (z : Z) | ODouble (bits : N) | OBytes (s : string).
+Record ospan := { o_trace : string; o_span : string; o_parent : string; o_name : string; o_start : Z; o_end : Z;
+                  o_attrs : list (string * oval); o_events : list (Z * string); o_status : option jstatus }.
+
+(* hex.EncodeToString *)
+Fixpoint hex_enc (s : string) : string :=
+  match s with
+  | EmptyString => EmptyString
+  | String c r => let n := code c in String (hexdig (n / 16)) (String (hexdig (n mod 16)) (hex_enc r))
+  end.
+(* base64.StdEncoding.EncodeToString *)
+Definition b64chr (n : N) : ascii :=
+  if (n <? 26)%N then chr (65 + n) else if (n <? 52)%N then chr (71 + n) else if (n <? 62)%N then chr (n - 4)
+  else if (n =? 62)%N then chr 43 else chr 47.
+Fixpoint b64_enc (s : string) : string :=
+  match s with
+  | String a (String b (String c r)) =>
+    let x := code a in let y := code b in let z := code c in
+    String (b64chr (x / 4)) (String (b64chr ((x mod 4) * 16 + y / 16)) (String (b64chr ((y mod 16) * 4 + z / 64))
+      (String (b64chr (z mod 64)) (b64_enc r))))
+  | String a (String b EmptyString) =>
+    let x := code a in let y := code b in
+    String (b64chr (x / 4)) (String (b64chr ((x mod 4) * 16 + y / 16)) (String (b64chr ((y mod 16) * 4)) (str1 61)))
+  | String a EmptyString =>
+    let x := code a in String (b64chr (x / 4)) (String (b64chr ((x mod 4) * 16)) (String (chr 61) (str1 61)))
+  | EmptyString => EmptyString
+  end.
+(* fmt %v of a float64 = strconv 'g' -1: 'e' layout when the decimal exponent is below -4 or from 6 on *)
+Definition g_text (x : fl) : string :=
+  match x with
+  | FZero neg => fixed_text neg 0 0
+  | FFin neg m e =>
+    let (D, P) := shortest m e in
+    let ex := (P + Z.of_nat (String.length (digits D)) - 1)%Z in
+    if ((ex <? -4) || (6 <=? ex))%Z then exp_text neg D P else fixed_of_dec neg D P
+  | _ => special_text x
+  end.
+Definition oval_text (v : oval) : string :=
+  match v with
+  | OStr s => s
+  | OBool true => "true"
+  | OBool false => "false"
+  | OInt z => int_text z
+  | ODouble bits => g_text (fl_of_bits bits)
+  | OBytes s => b64_enc s
+  end.
+(* the last service.name attribute with a non-empty string value *)
+Fixpoint service_name (attrs : list (string * oval)) (cur : string) : string :=
+  match attrs with
+  | [] => cur
+  | (k, v) :: r =>
+    service_name r (if String.eqb k "service.name"
+                    then match v with OStr EmptyString => cur | OStr s => s | _ => cur end else cur)
+  end.
+Definition span_to_jspan (s : ospan) : jspan :=
+  let tid := hex_enc (o_trace s) in
+  let sid := hex_enc (o_span s) in
+  let pid := hex_enc (o_parent s) in
+  {| js_traceID := tid; js_traceId := tid; js_spanID := sid; js_spanId := sid; js_name := o_name s;
+     js_start := o_start s; js_end := o_end s;
+     js_parent := match o_parent s with
+                  | EmptyString => EmptyString
+                  | _ => if String.eqb pid "0000000000000000" then EmptyString else pid
+                  end;
+     js_svc := service_name (o_attrs s) EmptyString;
+     js_attrs := map (fun kv => {| sa_key := fst kv; sa_val := oval_text (snd kv) |}) (o_attrs s);
+     js_events := o_events s; js_status := o_status s |}.
+
 (* the handlers: marshalled values between the hand-written chunks and commas *)
 Definition enc_search (vs : list json) : list token :=
   [TObjS; TStr "traces"; TColon; sp; TArrS] ++ sep_loop' tokensJ_of vs false ++ [TArrE; TObjE].
@@ -979,7 +1056,7 @@ Definition dec_Z (s : string) : Z :=
 Definition dec_nat (s : string) : nat := N.to_nat (dec_N s 0).
 
 Inductive enc_kind := KStreams | KMatrix | KTail | KVector | KTags | KTagValues | KLabels | KSeries
-                  | KPromMatrix | KPromVector | KPromScalar | KPromError | KTrace | KSearch | KSearchQL | KNumFmt.
+                  | KPromMatrix | KPromVector | KPromScalar | KPromError | KTrace | KSearch | KSearchQL | KNumFmt | KTagsV2 | KValuesV2.
 Record case := {
   c_id : Z;
   c_kind : enc_kind;
@@ -1028,6 +1105,8 @@ Definition model_bytes (c : case) : string :=
   | KPromVector => render (enc_prom_vector (case_series c))
   | KPromScalar => render (enc_prom_scalar (case_scalar c))
   | KPromError => render (enc_prom_error (case_msg c))
+  | KTagsV2 => render (tokensJ_of (tagsv2_val (c_items c)))
+  | KValuesV2 => render (tokensJ_of (valuesv2_val (c_items c)))
   | KTrace => render (enc_trace (c_vals c))
   | KSearch | KSearchQL => render (enc_search (c_vals c))
   end.
@@ -1080,6 +1159,8 @@ Definition spec_doc (c : case) : option json :=
   | KTagValues => Some (doc_tempo_list "tagValues" (c_items c))
   | KLabels => Some (doc_labels (c_items c))
   | KSeries => Some (doc_series (series_want (c_items c) (c_order c) (c_blbls c)))
+  | KTagsV2 => Some (sanitize_doc (tagsv2_val (c_items c)))
+  | KValuesV2 => Some (sanitize_doc (valuesv2_val (c_items c)))
   | KTrace => Some (doc_trace_of (map sanitize_doc (c_vals c)))
   | KSearch | KSearchQL => Some (doc_search_of (map sanitize_doc (c_vals c)))
   | KPromMatrix => Some (doc_prom_matrix (case_series c))
@@ -1192,13 +1273,14 @@ Definition dec_kind (s : string) : option enc_kind :=
   else if String.eqb s "trace" then Some KTrace
   else if String.eqb s "search" then Some KSearch
   else if String.eqb s "searchql" then Some KSearchQL
-  else if String.eqb s "numfmt" then Some KNumFmt else None.
+  else if String.eqb s "numfmt" then Some KNumFmt
+  else if String.eqb s "tagsv2" then Some KTagsV2
+  else if String.eqb s "valuesv2" then Some KValuesV2 else None.
 (* tempo kinds: the field values travel as a flat list of items.
    search: 5 per trace (traceID, rootServiceName, rootTraceName, startTimeUnixNano, durationMs)
    searchql: 9 per trace (traceID, service, name, start text, float bits of durationMs, spanID, duration text, flags:
              bit 0 attributes nil, bit 1 spans nil, bit 2 spanSets nil) - the TraceInfo the harness builds from them
-   trace: per span traceID traceId spanID spanId name start end parent service #attrs {key value} #events {time name}
-          hasStatus code message *)
+   trace: per OTLP span, see dec_ospans below *)
 Fixpoint dec_trace_responses (f : nat) (l : list string) : list trace_response :=
   match f, l with
   | S f, a :: b :: c :: d :: e :: r =>
@@ -1246,11 +1328,42 @@ Fixpoint dec_jspans (f : nat) (l : list string) : list jspan :=
     end
   | _, _ => []
   end.
+(* trace: per span  trace span parent name start end #attrs {key kind value} #events {time name} hasStatus code message *)
+Definition dec_oval (kind v : string) : oval :=
+  if String.eqb kind "s" then OStr v
+  else if String.eqb kind "y" then OBytes v
+  else if String.eqb kind "b" then OBool (String.eqb v "true")
+  else if String.eqb kind "i" then OInt (dec_Z v)
+  else ODouble (dec_N v 0).
+Fixpoint take_oattrs (n : nat) (l : list string) : list (string * oval) * list string :=
+  match n, l with
+  | S n, k :: kind :: v :: r => let (a, r') := take_oattrs n r in ((k, dec_oval kind v) :: a, r')
+  | _, _ => ([], l)
+  end.
+Fixpoint dec_ospans (f : nat) (l : list string) : list ospan :=
+  match f, l with
+  | S f, tid :: sid :: pid :: nm :: st :: en :: na :: r =>
+    let (attrs, r1) := take_oattrs (dec_nat na) r in
+    match r1 with
+    | ne :: r2 =>
+      let (evs, r3) := take_events (dec_nat ne) r2 in
+      match r3 with
+      | hs :: cd :: msg :: r4 =>
+        {| o_trace := tid; o_span := sid; o_parent := pid; o_name := nm; o_start := dec_Z st; o_end := dec_Z en;
+           o_attrs := attrs; o_events := evs;
+           o_status := match dec_nat hs with O => None | _ => Some {| st_msg := msg; st_code := dec_Z cd |} end |}
+        :: dec_ospans f r4
+      | _ => []
+      end
+    | [] => []
+    end
+  | _, _ => []
+  end.
 Definition fill_vals (k : enc_kind) (its : list string) : list json :=
   match k with
   | KSearch => map trace_response_val (dec_trace_responses (List.length its) its)
   | KSearchQL => map trace_info_val (dec_trace_infos (List.length its) its)
-  | KTrace => map jspan_val (dec_jspans (List.length its) its)
+  | KTrace => map (fun o => jspan_val (span_to_jspan o)) (dec_ospans (List.length its) its)
   | _ => []
   end.
 Definition decode_case (x : lbytes) : option case :=
